@@ -17,72 +17,15 @@ theorem fill_tokens (c : FillCfg) (N : Nat) (t : Str) (ts : List Str) :
   ⟨by simpa using fillLines_toks c N ⟨c.pre1, [t]⟩ ts,
    fillLines_toks_ne c N ⟨c.pre1, [t]⟩ ts (by simp)⟩
 
+/-- **fill_width**: in the lines `fill` builds, for every configuration and width, a line holding two or
+    more tokens fits the width (separator and suffix included); only a line with a single token may
+    be longer. -/
+theorem fill_width (c : FillCfg) (N : Nat) (t : Str) (ts : List Str) :
+    WidthOK c N (fillLines c N ⟨c.pre1, [t]⟩ ts) :=
+  fillLines_width c N ⟨c.pre1, [t]⟩ ts (by simp) (Or.inl (by simp))
+
 example : (fillLines (parenCfg "from m import ".toList) 24 ⟨"from m import (".toList, ["aaa".toList]⟩
     ["bbb".toList, "ccc".toList]).map Line.toks = [["aaa".toList, "bbb".toList], ["ccc".toList]] := by decide
-
-/-- text and number of tokens of every line, final line last -/
-def lineTexts (c : FillCfg) : List Line → List (Str × Nat)
-  | [] => []
-  | [l] => [(l.text c true, l.toks.length)]
-  | l :: l' :: ls => (l.text c false, l.toks.length) :: lineTexts c (l' :: ls)
-
-theorem renderLines_eq (c : FillCfg) (L : List Line) :
-    renderLines c L = ((lineTexts c L).map fun x => x.1 ++ c.nl).flatten := by
-  induction L with
-  | nil => rfl
-  | cons l ls ih =>
-    cases ls with
-    | nil => simp [renderLines, lineTexts, Line.renderT, Line.text, List.append_assoc]
-    | cons l' ls' =>
-      simp only [renderLines, lineTexts, List.map_cons, List.flatten_cons]
-      rw [ih]
-      simp [Line.renderN, Line.text, List.append_assoc, lineTexts]
-
-theorem lineTexts_width (c : FillCfg) (N : Nat) (L : List Line) (h : WidthOK c N L) :
-    ∀ x ∈ lineTexts c L, x.1.length > N → x.2 ≤ 1 := by
-  induction L with
-  | nil => intro x hx; cases hx
-  | cons l ls ih =>
-    cases ls with
-    | nil =>
-      intro x hx hlen
-      simp [lineTexts] at hx
-      subst hx
-      simp only [WidthOK] at h
-      rcases h with h | h
-      · exact h
-      · simp only at hlen; omega
-    | cons l' ls' =>
-      intro x hx hlen
-      simp only [lineTexts, List.mem_cons] at hx
-      simp only [WidthOK] at h
-      rcases hx with rfl | hx
-      · rcases h.1 with h1 | h1
-        · exact h1
-        · simp only at hlen; omega
-      · exact ih h.2 x (by simpa [lineTexts] using hx) hlen
-
-/-- the physical lines `pyfill` writes after nothing: (text without newline, number of tokens on it) -/
-def pyfillLines (pfx : Str) (tokens : List Str) (p : Params) : List (Str × Nat) :=
-  match tokens with
-  | [] => []
-  | t :: ts =>
-    if fitsOneLine pfx tokens p then [(pfx ++ sjoin ", ".toList tokens, tokens.length)]
-    else if useHanging pfx tokens p then
-      (pfx ++ ['('], 0) :: lineTexts (hangCfg p) (fillLines (hangCfg p) p.N ⟨(hangCfg p).pre1, [t]⟩ ts)
-    else lineTexts (parenCfg pfx) (fillLines (parenCfg pfx) p.N ⟨(parenCfg pfx).pre1, [t]⟩ ts)
-
-theorem slen_sjoin (tokens : List Str) :
-    (sjoin [',', ' '] tokens).length = slen tokens + 2 * (tokens.length - 1) := by
-  induction tokens with
-  | nil => rfl
-  | cons t ts ih =>
-    cases ts with
-    | nil => simp [sjoin, slen]
-    | cons t' ts' =>
-      simp only [sjoin, List.length_append, ih, slen, List.map_cons, List.sum_cons, List.length_cons]
-      simp
-      omega
 
 /-- **C11_width**: the text `pyfill` returns is the concatenation of the lines `pyfillLines` lists
     (each followed by a newline), and a line longer than the width carries at most one token
@@ -140,181 +83,6 @@ example : pyfillLines "from m import ".toList ["aaa".toList, "bbb".toList, "ccc"
     [("from m import (aaa, bbb,".toList, 2), ("               ccc)".toList, 1)] := by decide
 
 /-! ## T2  round trip: parsing the formatted block gives back the statements -/
-
-theorem bind_eq_ok {ε α β} (x : Except ε α) (f : α → Except ε β) (b : β) :
-    (x >>= f) = .ok b ↔ ∃ a, x = .ok a ∧ f a = .ok b := by
-  cases x with
-  | error e => simp [bind, Except.bind]
-  | ok a => simp [bind, Except.bind]
-
-inductive Forall2 {α β} (R : α → β → Prop) : List α → List β → Prop
-  | nil : Forall2 R [] []
-  | cons {a b as bs} : R a b → Forall2 R as bs → Forall2 R (a :: as) (b :: bs)
-
-theorem mapM_ok_forall₂ {ε α β} (f : α → Except ε β) (l : List α) (ts : List β)
-    (h : l.mapM f = .ok ts) : Forall2 (fun a t => f a = .ok t) l ts := by
-  induction l generalizing ts with
-  | nil =>
-    simp [List.mapM_nil, pure, Except.pure] at h
-    subst h; exact .nil
-  | cons a as ih =>
-    rw [List.mapM_cons] at h
-    obtain ⟨b, hb, h⟩ := (bind_eq_ok _ _ _).mp h
-    obtain ⟨bs, hbs, h⟩ := (bind_eq_ok _ _ _).mp h
-    simp [pure, Except.pure] at h
-    subst h
-    exact .cons hb (ih bs hbs)
-
-/-- column and `from` spacing a statement is printed with (`pp` of `ImportSet.pretty_print`) -/
-def stArgs (p : Params) (col : Option Nat) (st : Stmt) : Option Nat × Nat :=
-  if doAlign p st then (col, max 1 p.fromSpaces) else (none, 1)
-
-/-- the statements a printed statement reads back as (itself, except that the repaired tree writes an
-    overlong plain `import a, a as b` as one statement per alias) -/
-def readBack (p : Params) (col : Option Nat) (st : Stmt) : List Stmt :=
-  emitted st p (stArgs p col st).1 (stArgs p col st).2
-
-theorem lex_nil_bol : lex 0 true [] = some [] := by
-  conv => lhs; rw [lex.eq_def]
-  simp
-
-theorem lex_block (stmts : List Stmt) (p : Params) (col : Option Nat) (texts : List Str)
-    (hok : ∀ st ∈ stmts, StmtTxtOK st)
-    (h : Forall2 (fun st t => st.pretty p (stArgs p col st).1 (stArgs p col st).2 = .ok t) stmts texts) :
-    lex 0 true texts.flatten = some ((stmts.map fun st =>
-      ((readBack p col st).map fun s =>
-        stmtToks s (parenOf st p (stArgs p col st).1 (stArgs p col st).2) ++ [Tok.newline]).flatten).flatten) := by
-  induction h with
-  | nil => exact lex_nil_bol
-  | @cons st t sts ts hst _ ih =>
-    rw [List.flatten_cons, lex_stmt_all st p _ _ t (hok st (by simp)) hst true,
-      ih (fun x hx => hok x (List.mem_cons_of_mem _ hx))]
-    simp [readBack]
-
-theorem validStmt_txtOK (st : Stmt) (h : validStmt st = true) : StmtTxtOK st := by
-  obtain ⟨fromname, aliases⟩ := st
-  simp only [validStmt, Bool.and_eq_true, decide_eq_true_eq] at h
-  obtain ⟨hne, h⟩ := h
-  refine ⟨hne, ?_, ?_⟩
-  · intro m hm
-    simp only at hm
-    subst hm
-    simp only [Bool.and_eq_true] at h
-    exact isFromMod_word m h.1
-  · intro a ha
-    cases fromname with
-    | none =>
-      simp only [List.all_eq_true] at h
-      exact validAlias_txtOK true a (h a ha)
-    | some m =>
-      simp only [Bool.and_eq_true, Bool.or_eq_true, decide_eq_true_eq, List.all_eq_true] at h
-      rcases h.2 with h2 | h2
-      · simp only at ha
-        rw [h2] at ha
-        simp at ha
-        subst ha
-        exact ⟨Or.inl rfl, by intro n hn; cases hn⟩
-      · exact validAlias_txtOK false a (h2 a ha)
-
-theorem nameTok_ne_newline (n : Str) : nameTok n ≠ .newline := by
-  unfold nameTok; split <;> simp
-
-theorem aliasToks_no_newline (a : Alias) : Tok.newline ∉ aliasToks a := by
-  obtain ⟨n, m⟩ := a
-  have := nameTok_ne_newline n
-  cases m <;> simp [aliasToks, Ne.symm this]
-
-theorem tjoin_no_newline (gs : List (List Tok)) (h : ∀ g ∈ gs, Tok.newline ∉ g) : Tok.newline ∉ tjoin gs := by
-  induction gs with
-  | nil => simp [tjoin]
-  | cons g gs ih =>
-    cases gs with
-    | nil => simpa [tjoin] using h g (by simp)
-    | cons g' gs' =>
-      simp only [tjoin, List.mem_append, List.mem_cons, not_or]
-      exact ⟨h g (by simp), by simp, ih (fun x hx => h x (List.mem_cons_of_mem _ hx))⟩
-
-theorem stmtToks_no_newline (st : Stmt) (paren : Bool) : Tok.newline ∉ stmtToks st paren := by
-  have hb : Tok.newline ∉ bodyToks st :=
-    tjoin_no_newline _ (by intro g hg; obtain ⟨a, _, rfl⟩ := List.mem_map.mp hg; exact aliasToks_no_newline a)
-  have hh : Tok.newline ∉ headToks st.fromname := by
-    cases hf : st.fromname <;> simp [headToks]
-  cases paren <;> simp [stmtToks, hb, hh]
-
-theorem mapM_parseLine (E : List (List Tok)) (S : List Stmt)
-    (h : Forall2 (fun e s => parseLine e = some s) E S) : E.mapM parseLine = some S := by
-  induction h with
-  | nil => rfl
-  | cons h1 _ ih => rw [List.mapM_cons, h1, ih]; rfl
-
-theorem Forall2.append {α β} {R : α → β → Prop} {a a' : List α} {b b' : List β}
-    (h : Forall2 R a b) (h' : Forall2 R a' b') : Forall2 R (a ++ a') (b ++ b') := by
-  induction h with
-  | nil => exact h'
-  | cons h1 _ ih => exact .cons h1 ih
-
-theorem Forall2.map_left {α β} {R : α → β → Prop} (f : β → α) (l : List β) (h : ∀ s ∈ l, R (f s) s) :
-    Forall2 R (l.map f) l := by
-  induction l with
-  | nil => exact .nil
-  | cons a as ih => exact .cons (h a (by simp)) (ih (fun s hs => h s (List.mem_cons_of_mem _ hs)))
-
-theorem Forall2.flatMap {α β γ} {R : α → β → Prop} (l : List γ) (f : γ → List α) (g : γ → List β)
-    (h : ∀ x ∈ l, Forall2 R (f x) (g x)) : Forall2 R (l.flatMap f) (l.flatMap g) := by
-  induction l with
-  | nil => exact .nil
-  | cons a as ih =>
-    simp only [List.flatMap_cons]
-    exact Forall2.append (h a (by simp)) (ih (fun x hx => h x (List.mem_cons_of_mem _ hx)))
-
-/-- every statement a printed statement reads back as is accepted by the parser -/
-theorem emitted_parse (st : Stmt) (p : Params) (col : Option Nat) (fs : Nat)
-    (hv : validStmt st = true) (hn : noBadParen st p col fs = true) :
-    ∀ s ∈ emitted st p col fs, parseLine (stmtToks s (parenOf st p col fs)) = some s := by
-  intro s hs
-  unfold emitted at hs
-  by_cases hsp : splitPlain st p col fs = true
-  · rw [if_pos hsp] at hs
-    obtain ⟨a, ha, rfl⟩ := List.mem_map.mp hs
-    simp only [splitPlain, Bool.and_eq_true, decide_eq_true_eq] at hsp
-    obtain ⟨⟨hd, hnp⟩, _, hlen⟩ := hsp
-    have hnone : st.fromname = none := by
-      simp only [neverParen, Bool.or_eq_true, Option.isNone_iff_eq_none, decide_eq_true_eq] at hnp
-      rcases hnp with h | h
-      · exact h
-      · rw [h] at hlen; simp at hlen
-    have hpar : parenOf st p col fs = false := by simp [parenOf, hd, hnp]
-    rw [hpar, hnone]
-    apply parseLine_ok
-    · simp only [validStmt, hnone, Bool.and_eq_true, decide_eq_true_eq, List.all_eq_true] at hv
-      simp [validStmt, hv.2 a ha]
-    · intro h; cases h
-  · rw [if_neg hsp] at hs
-    simp at hs
-    subst hs
-    apply parseLine_ok _ _ hv
-    intro hpar
-    simp only [parenOf, Bool.and_eq_true, Bool.not_eq_true', Bool.and_eq_false_iff] at hpar
-    obtain ⟨hbr, hparen⟩ := hpar
-    simp only [noBadParen, Bool.or_eq_true, Bool.and_eq_true, Bool.not_eq_true'] at hn
-    have hstar : isStarStmt s = true → neverParen s = true := by
-      intro h
-      simp only [isStarStmt, decide_eq_true_eq] at h
-      simp [neverParen, h, aliasTok, star]
-    rcases hbr with hd | hnp
-    · rcases hn with (hd' | hn) | hn
-      · rw [hd] at hd'; cases hd'
-      · rw [hparen] at hn; cases hn
-      · exact hn
-    · simp only [neverParen, Bool.or_eq_false_iff] at hnp
-      refine ⟨by cases hf : s.fromname <;> simp_all, ?_⟩
-      cases hst : isStarStmt s
-      · rfl
-      · have := hstar hst
-        simp only [neverParen, Bool.or_eq_true] at this
-        rcases this with h | h
-        · rw [hnp.1] at h; cases h
-        · rw [hnp.2] at h; cases h
 
 /-- **C11_roundtrip_core** (both trees).  Whenever `pretty` returns a text for a set of imports and a
     configuration, the statements of the set are valid Python names (`validStmt`) and no plain import or
@@ -375,12 +143,6 @@ theorem C11_roundtrip_core (imps : List Imp) (p : Params) (text : Str)
     intro st hst'
     apply Forall2.map_left
     exact emitted_parse st p _ _ (hvalid st hst') (hnbp st hst')
-
-theorem noBadParen_repaired (st : Stmt) (p : Params) (col : Option Nat) (fs : Nat) (h : p.d2fix = true) :
-    noBadParen st p col fs = true := by simp [noBadParen, h]
-
-theorem readBack_unrepaired (p : Params) (col : Option Nat) (st : Stmt) (h : p.d2fix = false) :
-    readBack p col st = [st] := by simp [readBack, emitted, splitPlain, h]
 
 /-- splitting an overlong plain import into one statement per alias keeps the imports -/
 theorem readBack_imports (p : Params) (col : Option Nat) (st : Stmt) :
@@ -470,17 +232,6 @@ end Witness
 
 /-! ## T3  the statements denote exactly the imports of the set -/
 
-theorem groups_imports (S : List Imp) (sep : Bool) (keys : List GKey) (groups : List (List Stmt))
-    (hfa : Forall2 (fun k g => groupStmts (S.filter fun i => gkeyOf sep i = k) = .ok g) keys groups)
-    (hrt : ∀ i ∈ S, Imp.fromSplit i.split = i) :
-    (groups.flatten.flatMap Stmt.imports).Perm (keys.flatMap fun k => S.filter fun i => gkeyOf sep i = k) := by
-  induction hfa with
-  | nil => simp
-  | @cons k g ks gs hk _ ih =>
-    simp only [List.flatten_cons, List.flatMap_append, List.flatMap_cons]
-    refine List.Perm.append ?_ ih
-    exact groupStmts_imports _ g hk (fun i hi => hrt i (List.mem_filter.mp hi).1)
-
 /-- **getStatements_imports**: the imports of the statements `get_statements` builds are a permutation of the
     set (nothing lost, duplicated or merged wrongly), for every set whose members survive
     `from_split ∘ split` (see `fromSplit_split`). -/
@@ -534,3 +285,46 @@ theorem C11_imports_exact (imps : List Imp) (p : Params) (text : Str) (hfix : p.
   exact getStatements_imports _ _ _ h1 (fun i hi => fromSplit_split i (hwf i ((mem_dedup i imps).mp hi)))
 
 example : (∀ i ∈ impsEx, wfName i.fullname = true) := by decide +kernel
+
+/-! ## T4  fixpoint: formatting the re-parsed set reproduces the identical text -/
+
+/-- **C11_set_only**: `pretty` depends only on the *set* of imports given (order and repetitions are
+    irrelevant): sorting with a total antisymmetric order makes `get_statements` canonical. -/
+theorem C11_set_only (l₁ l₂ : List Imp) (p : Params) (h : ∀ i, i ∈ l₁ ↔ i ∈ l₂) :
+    pretty l₁ p = pretty l₂ p :=
+  pretty_perm l₁ l₂ p (dedup_perm l₁ l₂ h)
+
+/-- **C11_fixpoint** — for the code as it is now: when `pretty` returns a text (well-formed fullnames,
+    valid Python names), the text parses, and formatting the imports of the parsed statements with the same
+    configuration returns the identical text. -/
+theorem C11_fixpoint (imps : List Imp) (p : Params) (text : Str) (hfix : p.d2fix = true)
+    (h : pretty imps p = .ok text) (hwf : ∀ i ∈ imps, wfName i.fullname = true)
+    (hvalid : ∀ sts, getStatements (dedup imps) p.sepFrom = .ok sts → ∀ st ∈ sts, validStmt st = true) :
+    ∃ back, parseBlock text = some back ∧ pretty (back.flatMap Stmt.imports) p = .ok text := by
+  obtain ⟨back, hb, hperm⟩ := C11_imports_exact imps p text hfix h hwf hvalid
+  refine ⟨back, hb, ?_⟩
+  rw [← h]
+  apply pretty_perm
+  have hnd : (back.flatMap Stmt.imports).Nodup := (hperm.nodup_iff).mpr (nodup_dedup imps)
+  rw [dedup_of_nodup _ hnd]
+  exact hperm
+
+example : ((pretty impsEx pEx).toOption.bind parseBlock).map (fun back => (pretty (back.flatMap Stmt.imports) pEx).toOption)
+    = some (pretty impsEx pEx).toOption := by decide +kernel
+
+/-- **C11_width_physical**: when neither the prefix nor a token contains a newline, the lines of
+    `pyfillLines` are exactly the physical lines of the text `pyfill` returns (Python `out.split("\n")`,
+    whose last element is the empty string after the final newline). -/
+theorem C11_width_physical (pfx : Str) (tokens : List Str) (p : Params) (out : Str)
+    (h : pyfill pfx tokens p = .ok out) (hp : '\n' ∉ pfx) (ht : ∀ t ∈ tokens, '\n' ∉ t) :
+    splitNl out = (pyfillLines pfx tokens p).map (·.1) ++ [[]] := by
+  obtain ⟨hout, _⟩ := C11_width pfx tokens p out h
+  rw [hout]
+  have := splitNl_lines ((pyfillLines pfx tokens p).map (·.1)) (by
+    intro l hl
+    obtain ⟨x, hx, rfl⟩ := List.mem_map.mp hl
+    exact pyfillLines_noNl pfx tokens p hp ht x hx)
+  rw [List.map_map] at this
+  exact this
+
+end Pfb.C11
